@@ -78,7 +78,7 @@ Section BU.
            | None => Some None
            | Some x =>
              match run env itv_ops (fun n e => bu_block sums (fn_block fn n) e) (fn_preds fn)
-                       (nest_of (wtos f)) 0 delay desc false (fun _ => None) efuel (wtos f) e_top with
+                       (nest_of (wtos f)) 0 delay desc false (fun _ => None) e_top efuel (wtos f) with
              | Some st => Some (Some (e_project (e_post env st x) (fn_formals fn)))
              | None => None
              end
